@@ -15,7 +15,10 @@ PROP_OF = [  # (regex on commit subject, property)
     (r"strict max_evals offset|cap on submitted jobs", "C03"), (r"evaluator timeout", "C03/C14"),
     (r"number of objectives from the first non-failed|non-finite value to a failure", "C04/C06"),
     (r"impute failures per objective", "C06"),
-    (r"results\.csv|earlier results|results written by another search", "C15"),
+    (r"Pareto rewrite of results\.csv keeps the CSV dialect", "C04"),
+    (r"MES acquisition no longer floors", "C05"),
+    (r"CBO\.ask called again before any tell", "C08"),
+    (r"results\.csv|earlier results|results written by another search|always starts its results file", "C15"),
     (r"Identity\(type_func\)|Real\.inverse_transform", "C09/C02"), (r"sample from their prior|keeps the weights", "C10"),
     (r"hypervolume", "C12"), (r"MedianStopper", "C16"), (r"MES acquisition|sort the active hyperparameter names|NumPy integer seeds", "C07"),
     (r"qUCB/qUCBd batches|all told results are ignored failures|already sampled is replaced", "C08"),
